@@ -69,6 +69,15 @@ func runC05(w *mc.Worker) {
 		sp2.BalDom = amt
 		runSendSpace(w, &sp2, owns, nontriv)
 	}
+	stage("pow2-w2", "destination trees of weight <= 2, depth <= 1; amounts in {0,1,2^63-1,2^63,2^64-1,2^64,2^64+1,2^65}", 2, 1, pow2Dom())
+	// several senders: what is credited must not depend on how the draw is split across sources
+	{
+		src2 := &SrcCfg{Asset: "USD", Accts: ws(0, "a", "b"), ListLens: ws(0, "2"), WOverdraft: -1, WUnbounded: -1, WVar: -1, WInorder: 0, WCapped: -1, WAllot: -1}
+		sp := sendSpace{Name: "multi-source-w2", Bounds: "in-order sources of 2 accounts over {a,b} x destination trees of weight <= 2 (depth <= 2, kept in every position); balances {0,1,3}^2; amounts {0,1,2,3,5,8}", Budget: 2, SrcDepth: 1, DstDepth: 2, Src: src2, Dst: c05Dst(),
+			Modes: []string{"fixed", "all"}, Accts: []string{"a", "b"}, BalDom: bigs(0, 1, 3), AmtDom: amtQ,
+			VarAcctVals: []string{"x", "a"}, PortVals: []string{"1/2", "1/3", "0/1", "1/1"}, Asset: "USD"}
+		runSendSpace(w, &sp, owns, nontriv)
+	}
 	if w.Tier == "quick" {
 		stage("w3-d2", "destination trees of weight <= 3, depth <= 2; amounts {0,1,2,3,5,8}", 3, 2, amtQ)
 		stage("w4-d2", "destination trees of weight <= 4, depth <= 2; amounts {0,1,2,3,5,8}", 4, 2, amtQ)
